@@ -5,8 +5,8 @@
 D=$1; WT=$2
 set -u
 if [ -n "${WT:-}" ] && [ -d "$WT" ]; then
-  DEMO=$(ls $D | grep -E "demo.*\.py$" | head -1)
-  ( cd $WT && git checkout -q -- . && timeout 600 /venv/bin/python $D/$DEMO >/dev/null 2>&1; echo "demo without change: exit=$?"; git apply $D/patch.diff && timeout 600 /venv/bin/python $D/$DEMO >/dev/null 2>&1; echo "demo with change:    exit=$?"; git checkout -q -- . )
+  DEMO=$(ls $D | grep -E "^(test_)?demo[^/]*\.py$" | head -1)
+  ( cd $WT && git checkout -q -- . && PYTHONPATH=$WT timeout 600 /venv/bin/python $D/$DEMO >/dev/null 2>&1; echo "demo without change: exit=$?"; git apply $D/patch.diff && PYTHONPATH=$WT timeout 600 /venv/bin/python $D/$DEMO >/dev/null 2>&1; echo "demo with change:    exit=$?"; git checkout -q -- . )
 fi
 cd /verif
 git -C /repo apply $D/patch.diff || { echo "PATCH DOES NOT APPLY to /repo"; exit 3; }
